@@ -129,6 +129,27 @@ def endsNl (t : Text) : Bool := t.getLast? == some '\n'
 /-- `s.rstrip("\n")` -/
 def rstripNl (t : Text) : Text := (t.reverse.dropWhile (· == '\n')).reverse
 
+/-- `NixList._auto_multiline(indent, inline)` for a constructed list (`self.multiline is None`, no
+    inner trivia): `count = len(self.value)`, `anyNl` = some item needs several lines. -/
+def autoMultiline (count : Nat) (anyNl : Bool) (indent : Nat) (inline : Bool) : Bool :=
+  if count == 0 then false
+  else if anyNl then true
+  else if inline && indent == 0 then count > autoMultilineThresholds.1
+  else count > autoMultilineThresholds.2
+
+/-- The text assembly at the end of `NixList.rebuild` for a non-empty list, given the multiline
+    decision and the rendered items (no trivia). -/
+def listText (multiline : Bool) (items : List Text) (indent : Nat) (inline : Bool) : Text :=
+  if multiline then
+    let itemsStr := joinWith ['\n'] items
+    let indentor := if inline then [] else spaces indent
+    let closingSep := if endsNl itemsStr then [] else ['\n']
+    indentor ++ ('[' :: '\n' :: itemsStr) ++ closingSep ++ spaces indent ++ [']']
+  else
+    let itemsStr := joinWith [' '] items
+    let indentor := if inline then [] else spaces indent
+    indentor ++ ('[' :: ' ' :: itemsStr) ++ [' ', ']']
+
 mutual
 /-- `coerce_expression(item).rebuild(indent, inline)` for a scalar or list. -/
 def renderElem : Elem → Nat → Bool → Text
@@ -139,27 +160,14 @@ def renderElem : Elem → Nat → Bool → Text
   | .str s, i, inl =>
     addTrivia (stringQuotes.1 ++ escapeNix stringEscapesInterpolation s ++ stringQuotes.2) i inl
   | .list xs, i, inl =>
-    -- `_auto_multiline` (self.multiline is None, no inner trivia)
-    let multiline :=
-      if xs.isEmpty then false
-      else if anyItemNl xs then true
-      else if inl && i == 0 then xs.length > autoMultilineThresholds.1
-      else xs.length > autoMultilineThresholds.2
+    let multiline := autoMultiline xs.length (anyItemNl xs) i inl
     let indented := if multiline then i + 2 else i
     if xs.isEmpty then
       let indentor := if inl then [] else spaces i
       indentor ++ "[ ]".toList
     else
-      let items := renderItems xs indented (!multiline)
-      if multiline then
-        let itemsStr := joinWith ['\n'] items
-        let indentor := if inl then [] else spaces i
-        let closingSep := if endsNl itemsStr then [] else ['\n']
-        indentor ++ ('[' :: '\n' :: itemsStr) ++ closingSep ++ spaces i ++ [']']
-      else
-        let itemsStr := joinWith [' '] items
-        let indentor := if inl then [] else spaces i
-        indentor ++ ('[' :: ' ' :: itemsStr) ++ [' ', ']']
+      -- `render_item`: `expr.rebuild(indent=indented, inline=not multiline)`
+      listText multiline (renderItems xs indented (!multiline)) i inl
 /-- `[render_item(item) for item in self.value]` -/
 def renderItems : List Elem → Nat → Bool → List Text
   | [], _, _ => []
@@ -180,20 +188,38 @@ def simpleInlinePreview (xs : List Elem) (indent : Nat) : Option Text :=
       else ('[' :: ' ' :: joinWith [' '] (renderItems xs indent true)) ++ [' ', ']']
     if hasNl preview || preview.length > maxInlineListWidth then none else some preview
 
-/-- The body of `Binding.rebuild` once the value has been rendered (`rendered` is
-    `value_expr.rebuild(indent=val_indent, inline=True)`; `value_gap` is `" "`, so the value stays on
-    the line of the name and `val_indent = indent`). -/
-def bindingCore (name : Text) (v : Expr) (rendered : Text) (indent : Nat) (inline : Bool) : Text :=
+/-- `render_value(value_expr)` inside `Binding.rebuild` (`value_gap` is `" "`, so the value stays on
+    the line of the name and `val_indent = indent`): a list first tries `simple_inline_preview`;
+    `rendered` is `value_expr.rebuild(indent=val_indent, inline=True)`. -/
+def bindingValueStr (v : Expr) (rendered : Text) (indent : Nat) : Text :=
+  match v with
+  | .raw (.list xs) =>
+    match simpleInlinePreview xs indent with
+    | some p => p
+    | none => rendered
+  | _ => rendered
+
+/-- The rest of `Binding.rebuild`: strip trailing newlines of the value, assemble `name = value;`. -/
+def bindingText (name : Text) (valueStr : Text) (indent : Nat) (inline : Bool) : Text :=
   let indentation := if inline then [] else spaces indent
-  let valueStr :=
-    match v with
-    | .raw (.list xs) =>
-      match simpleInlinePreview xs indent with
-      | some p => p
-      | none => rendered
-    | _ => rendered
   let valueStr := if endsNl valueStr then rstripNl valueStr else valueStr
   indentation ++ name ++ [' ', '='] ++ [' '] ++ valueStr ++ [';']
+
+/-- The body of `Binding.rebuild` once the value has been rendered. -/
+def bindingCore (name : Text) (v : Expr) (rendered : Text) (indent : Nat) (inline : Bool) : Text :=
+  bindingText name (bindingValueStr v rendered indent) indent inline
+
+/-- The text assembly of `AttributeSet.rebuild` for a non-empty set, given the rendered bindings
+    (`rendered true` at `inline=True`, `rendered false` at `inline=False`, both at `indent + 2`). -/
+def setText (multiline : Bool) (rendered : Bool → List Text) (indent : Nat) (inline : Bool) : Text :=
+  if multiline then
+    let bindingsStr := joinWith ['\n'] (rendered false)
+    let closingSep := if endsNl bindingsStr then [] else ['\n']
+    let indentation := if inline then [] else spaces indent
+    indentation ++ ('{' :: '\n' :: bindingsStr) ++ closingSep ++ spaces indent ++ ['}']
+  else
+    let bindingsStr := joinWith [' '] (rendered true)
+    addTrivia (('{' :: ' ' :: bindingsStr) ++ [' ', '}']) indent inline
 
 mutual
 /-- `value.rebuild(indent, inline)` for what a binding holds (after `coerce_expression`). -/
@@ -201,14 +227,7 @@ def renderExpr : Expr → Nat → Bool → Text
   | .raw e, i, inl => renderElem e i inl
   | .aset bs ml, i, inl =>
     if bs.isEmpty then addTrivia "{ }".toList i inl
-    else if ml then
-      let bindingsStr := joinWith ['\n'] (renderBindings bs (i + 2) false)
-      let closingSep := if endsNl bindingsStr then [] else ['\n']
-      let indentation := if inl then [] else spaces i
-      indentation ++ ('{' :: '\n' :: bindingsStr) ++ closingSep ++ spaces i ++ ['}']
-    else
-      let bindingsStr := joinWith [' '] (renderBindings bs (i + 2) true)
-      addTrivia (('{' :: ' ' :: bindingsStr) ++ [' ', '}']) i inl
+    else setText ml (fun binl => renderBindings bs (i + 2) binl) i inl
 /-- `_render_bindings(values, indent, inline)` (no attrpath entries, nothing `nested`). -/
 def renderBindings : List (Text × Expr) → Nat → Bool → List Text
   | [], _, _ => []
